@@ -502,3 +502,24 @@ def conj_ixd(d):
     if sub is not None:
         sub = (tuple(conj_ixd(s) for s in sub[0]), sub[1])
     return (cm, not dual, sub)
+
+
+# --------------------------------------------------------------------------- #
+# bridge to the graded reference model
+
+
+def gt_of(x):
+    """graded tensor (R-graded input) of a real fermionic array, via the harness embedding"""
+    from .ref_graded import GT
+
+    return GT(embed(x), axis_parities(x), x.duals, oddpos_key(x))
+
+
+def pars_in_frame(sym, frame):
+    out = []
+    for table in frame:
+        p = []
+        for c, d in table:
+            p += [G.parity(sym, c)] * d
+        out.append(np.array(p, dtype=int))
+    return out
